@@ -80,6 +80,28 @@ func c15Sets() []c15Set {
 
 // c15Variant builds target groups for a logical set: order of targets, which common labels sit on
 // the group (bitmask; the rest is repeated on every target), and a cut into two groups.
+// c15Overlap puts the common labels that sit on the members ALSO on the group: with the same value
+// (mode 1) or with a conflicting value that the member's own label overrides (mode 2).
+func c15Overlap(gs []*targetgroup.Group, s c15Set, splitMask int, mode int) []*targetgroup.Group {
+	ck := make([]string, 0, len(s.Common))
+	for k := range s.Common {
+		ck = append(ck, k)
+	}
+	sort.Strings(ck)
+	for _, g := range gs {
+		for i, k := range ck {
+			if splitMask&(1<<uint(i)) == 0 { // the label is on the members
+				v := s.Common[k]
+				if mode == 2 {
+					v = "group-value-that-must-lose"
+				}
+				g.Labels[model.LabelName(k)] = model.LabelValue(v)
+			}
+		}
+	}
+	return gs
+}
+
 func c15Variant(s c15Set, perm []int, splitMask int, cut int) []*targetgroup.Group {
 	ck := make([]string, 0, len(s.Common))
 	for k := range s.Common {
@@ -210,7 +232,12 @@ func init() {
 							continue
 						}
 						gs := c15Variant(s, p, split, cut)
-						variant := map[string]interface{}{"order": p, "group_label_mask": split, "cut": cut}
+						overlap := 0
+						if split != nsplit-1 {
+							overlap = int(idx % 3) // 0 none, 1 same value on both sides, 2 conflicting group value
+							gs = c15Overlap(gs, s, split, overlap)
+						}
+						variant := map[string]interface{}{"order": p, "group_label_mask": split, "cut": cut, "overlap_mode": overlap}
 						// every execution within the deviation bound (map orders inside the translation)
 						dev := bound
 						if split != 0 && split != nsplit-1 && cut != 0 {
@@ -237,6 +264,9 @@ func init() {
 								kind := "order"
 								if split != 0 {
 									kind = "label-split"
+								}
+								if overlap != 0 {
+									kind = "label-on-group-and-member"
 								}
 								if len(x.Picks()) > 0 && x.DevUsed() > 0 {
 									kind = "map-order"
@@ -295,6 +325,38 @@ func init() {
 			if h1v == h0 {
 				r.Violate("C15:edit-same-hash:"+e.name, "different-differ", fmt.Sprintf("%s and %s (edit %s) share hash %d", k0, k1, e.name, h0), idx,
 					&c15Replay{Property: "C15", Clause: "different-differ", Variant: e.name, Base: k0, Got: k1})
+			}
+		}
+		// history: rounds before a reload must not influence the hashes after it
+		if c.Part == 0 {
+			before := c15JobText("", "", "    a: [\"1\", \"2\"]\n    t: [\"x y\"]\n", "")
+			after := c15JobText("", "", "    a: [\"1\", \"3\"]\n    t: [\"x y\"]\n", "")
+			afterPath := c15JobText("", "/other", "    a: [\"1\", \"2\"]\n    t: [\"x y\"]\n", "")
+			set := c15Sets()[1]
+			perm := []int{0, 1, 2}
+			gs := c15Variant(set, perm, 0, 0)
+			for _, aft := range []string{after, afterPath} {
+				idx++
+				infoB, _ := pipe.LoadInfo(before)
+				infoA, _ := pipe.LoadInfo(aft)
+				fresh, _, _ := c15Hashes(aft, gs, 1)
+				// same TargetsDiscovery: round under the old config, reload, round under the new one
+				act, d := pipe.Discovered(infoB, []map[string][]*targetgroup.Group{{"j1": gs}})
+				_ = act
+				if err := d.ApplyConfig(infoA); err != nil {
+					chk.Fatalf("%v", err)
+				}
+				got := pipe.Rediscover(d, map[string][]*targetgroup.Group{"j1": gs})
+				hist := map[string]uint64{}
+				for h, t := range got {
+					hist[t.ShardTarget.Labels.String()+" @ "+t.PromTarget.URL().String()] = h
+				}
+				r.States++
+				r.Transitions += 2
+				if chk.JSON(hist) != chk.JSON(fresh) {
+					r.Violate("C15:history-dependent", "stable-across-restarts", "hashes after a reload differ from those a fresh process computes for the same configuration and groups", idx,
+						&c15Replay{Property: "C15", Clause: "stable-across-restarts", Variant: "round, reload (param / path edit), round", Base: fresh, Got: hist})
+				}
 			}
 		}
 		// separate processes
